@@ -493,17 +493,22 @@ fn eval(ctx: &mut Ctx, c: Case) {
         if nt {
             ctx.nontrivial(["option", "result", "try", "minmax_keyed", "minmax_prim", "minmax_compound"][(c.group as usize).min(5)], &c, || json!(c));
         }
-        match run_case(&c) {
-            Err(m) if m.starts_with("FN_EXPR_SKIPPED") => {
-                if ctx.known_hit("function-argument-expression-skipped-when-unused", || json!({"case": c, "message": m})) {
-                    Ok(())
-                } else {
-                    Err(m)
-                }
-            }
-            r => r,
-        }
+        routed(ctx, &c)
     });
+}
+
+/// run_case + attribution of the listed finding (its alternative model is checked inside fn_expr_macros)
+fn routed(ctx: &mut Ctx, c: &Case) -> Result<(), String> {
+    match run_case(c) {
+        Err(m) if m.starts_with("FN_EXPR_SKIPPED") => {
+            if ctx.known_hit("function-argument-expression-skipped-when-unused", || json!({"case": c, "message": m})) {
+                Ok(())
+            } else {
+                Err(m)
+            }
+        }
+        r => r,
+    }
 }
 
 fn explore(ctx: &mut Ctx) {
@@ -542,7 +547,7 @@ fn explore(ctx: &mut Ctx) {
         let c = Case { group, pos, a, b };
         ctx.label("random");
         ctx.nontrivial("random", &c, || json!(c));
-        run_case(&c)
+        routed(ctx, &c)
     });
 }
 
@@ -564,7 +569,7 @@ fn real_main() {
             }
         };
         println!("replaying {:?}", c);
-        ctx.case("std_equiv_macros", &c, |_| run_case(&c));
+        ctx.case("std_equiv_macros", &c, |ctx| routed(ctx, &c));
     } else {
         explore(&mut ctx);
     }
